@@ -93,6 +93,27 @@ CLAIMED = {
          "uint64 arithmetic and ctypes packed layout assumed and compared. USBTMC quirk flags off; T3 outside; read_raw with num>0 and APT field-by-field reinterpretation are checked by "
          "correspondence/oracle only.",
     technique="executable Gallina codecs, induction and round-trip/soundness proofs, finite CRC sweeps, differential testing"),
+ "C12": dict(category="proof", design_ref="7 (C12)",
+    text="9 Coq theorems (all closed) over ALL finite operation-and-fault histories of an executable model of the context and singleton lifecycle (exception monad with catch exactly where "
+         "the code has try/except-log): table invariant (unique names, no reservation left, handlers = live names, one worker thread per live object, nothing released twice), duplicate "
+         "refused without change, rollback after a failed constructor, remove, stop reclaims everything whatever stop handlers or release steps raise, failed start leaves nothing "
+         "behind at QMI_Context and qmi.start level (proved for the repaired behaviour, refuted by witness for the pinned tree). Tie: real QMI_Context / qmi.start in a forked child "
+         "under the deterministic scheduler with the fake network and injected constructor/release/stop-handler/bind/peer faults; after every operation exception class, live QMI "
+         "threads, handler and object maps, sockets, singleton, release and stop-handler logs are compared step by step with the model (1.6k history-schedule pairs quick, 26k thorough).",
+    note="Trusted: Coq kernel+vm_compute; hand-transcribed model; dsched fake loop/network; harness stubs; histories are sequential (interleavings inside one operation are sampled). "
+         "The failed-start defect (singleton stuck, threads and ports leaked) found here was repaired by a fix: commit.",
+    technique="inductive invariant over histories with an exception monad + step-by-step observation correspondence under dsched"),
+ "C19": dict(category="proof", design_ref="7 (C19)",
+    text="5 generic Coq theorems (all closed): the abstract post analyser of the open/close effect language is sound AND complete for every fault placement; if the boolean conditions "
+         "ok_open/ok_close hold then for every sequence of open/close/is_open calls and every fault placement is_open() = link held, a failing open leaves (closed, released) or "
+         "(open, held), wrong-state open/close raise and change nothing. Per-driver obligations: the open()/close() programs of ALL 62 transport-based driver classes (63 program pairs) "
+         "are REGENERATED from the source on every run by a fail-closed MRO-aware ast translator and ok_open/ok_close is decided per class by vm_compute (one lemma each). Classes whose "
+         "obligation is refuted are genuine defects, each reproduced on the real class with the fault index the analyser reports. Tie: every class is instantiated with a recording fake "
+         "transport; a fault is injected at every k-th transport call of open() and close(); every observed final state must lie in the model's post set.",
+    note="Trusted: Coq kernel+vm_compute; the ast translator (validated each run by the fault-injection correspondence; base-class shapes re-checked); the fake transport. I/O statements are "
+         "abstracted as 'may raise, do not change flag or link'; single device link per instrument; the tclab retry loop is unrolled 3 times. 21 driver defects were found: 4 repaired by "
+         "fix: commits, 17 recorded per class as open known findings.",
+    technique="effect-language translation + sound/complete abstract post analyser, per-class reflection, exhaustive fault-index injection"),
 }
 
 REASONS = {}
